@@ -1,5 +1,5 @@
 From Coq Require Import Extraction ExtrOcamlBasic ZArith NArith List.
-From M Require Import base.ExtractBase gen.Consts model.TcpStream model.LowEntropy.
+From M Require Import base.ExtractBase gen.Consts model.TcpStream model.LowEntropy model.Wire model.TcpStreamWire.
 Extraction Language OCaml.
 Extraction "model.ml"
   xb_zadd xb_zmul xb_zdiv xb_zmod xb_zopp xb_zltb xb_nadd xb_nmul xb_ndiv xb_nmod xb_z_of_n xb_n_of_z xb_n_of_nat xb_nat_of_n xb_keep
@@ -7,4 +7,5 @@ Extraction "model.ml"
   plan_events w_init frag_size written
   demux recv_queue read_all run_reads read1
   meta_parse_c meta_marshal_c le_len_c
+  parse_w marshal_w meta_ok_w le_decode_w le_encode_w le_len_w le_ok_w
   LowEntropy.decode LowEntropy.encode.
